@@ -19,6 +19,8 @@ class Terminal(CFGObject):  # pylint: disable=too-few-public-methods
 
     def to_text(self) -> str:
         text = str(self._value)
-        if text and text[0].isupper():
+        # also mark what from_text would otherwise read as epsilon
+        if text and (text[0].isupper() or
+                     text in ("epsilon", "$", "ε", "ϵ", "Є")):
             return '"TER:' + text + '"'
         return text
